@@ -56,7 +56,25 @@
 //! `TempFileFactory` injector (§3.8c) is not used (the quota reaches the same error paths);
 //! the schedule type (see `vf_kit::sched`); reader-drop-early is part of the domain.
 //!
-//! PROBES-PLACEHOLDER
+//! **Sensitivity probes** (patches in `vf-chan/probes/`, `tools/mutrun <patch> -- ./check C16 quick`,
+//! run while the known finding is open, i.e. on the no-fault sub-domain; logs `probes/probes*.log`):
+//! * `c16-p1-drop-no-pool-wake` — last writer's drop does not wake the pool-level waker:
+//!   **VIOLATION** after 19 cases (deadlock: reader waits for a new file forever).
+//! * `c16-p2-file-eof-when-caught-up` — `SpillPoolFile::poll_next` reports end-of-file as soon as the
+//!   reader has caught up: **VIOLATION** after 19 cases ("end-of-stream while only 0 of 1 writer handles
+//!   have been dropped").
+//! * `c16-p3-new-sink-no-count` — `new_sink` does not increment `remaining_writer_count`:
+//!   **VIOLATION** after 15 cases (panic `attempt to subtract with overflow` in `Drop`, spill_pool.rs:150).
+//! * `c16-p4-drop-count-after-wake` (race-only: the writer count reaches zero only after the pool-level
+//!   wake-up, so a reader scheduled in between re-registers and is never woken) — PROBE4-RESULT
+//! * The first run of p2/p4 showed `reconfirmed=false` for a shrunk case: tokio reports a file read as
+//!   `Ready` or `Pending`+wake depending on timing, which changed the number of yield points. Fixed
+//!   by `IoGate` + `ActorCtx::take_wake` (see "File I/O of the reader") and guarded from now on:
+//!   a violation is only reported if an immediate second execution confirms it, and
+//!   `VF_CHAN_DETCHECK=1` compares the traces of two executions of every case (6 277 + 150 000 cases
+//!   compared equal for c16 / c15).
+//! * The genuine defect (known finding above) is itself a sensitivity witness for the fault path:
+//!   found after 10 cases on the unchanged tree, passes with `fixes/C16-push-failure-finalize.diff`.
 
 use arrow::array::{Array, ArrayRef, Int32Array};
 use arrow::datatypes::{DataType, Field, Schema, SchemaRef};
